@@ -21,6 +21,7 @@ mod c12;
 mod c13;
 mod c16;
 mod c17;
+mod c18;
 mod c19;
 mod c20;
 mod pat;
@@ -55,6 +56,7 @@ fn props() -> Vec<Prop> {
         Prop { id: "C13", run: c13::run, replay: c13::replay, meta: c13::meta, workers: (1, 16), also_release: false },
         Prop { id: "C16", run: c16::run, replay: c16::replay, meta: c16::meta, workers: (8, 16), also_release: false },
         Prop { id: "C17", run: c17::run, replay: c17::replay, meta: c17::meta, workers: (4, 16), also_release: false },
+        Prop { id: "C18", run: c18::run, replay: c18::replay, meta: c18::meta, workers: (8, 16), also_release: false },
         Prop { id: "C19", run: c19::run, replay: c19::replay, meta: c19::meta, workers: (4, 16), also_release: false },
         Prop { id: "C20", run: c20::run, replay: c20::replay, meta: c20::meta, workers: (2, 16), also_release: false },
         Prop { id: "C10", run: c10::run, replay: c10::replay, meta: c10::meta, workers: (1, 16), also_release: false },
@@ -150,6 +152,7 @@ fn main() {
 fn child(name: &str, args: &[String]) -> i32 {
     match name {
         "c02" => child::child_main::<c02::History>(args, c02::child_check),
+        "c18" => c18::child_main(args),
         "c16" => child::child_main::<engine::ReplayFile>(args, c16::child_replay),
         _ => {
             eprintln!("unknown child {}", name);
